@@ -1,1 +1,345 @@
-//! cqlref::placement - independent reference (see DESIGN.md 1.3). Owned by the builder of the property that needs it.
+//! cqlref::placement - independent reference for replica placement (C04, C05, C12).
+//!
+//! Written from the property statement, word for word:
+//!
+//! * SimpleStrategy - the first RF distinct nodes clockwise from the token;
+//! * NetworkTopologyStrategy - per datacenter, walking that datacenter's nodes clockwise,
+//!   taking a node if its rack is new or if rack repeats are still allowed (RF minus rack
+//!   count), until min(RF, nodes) are found.
+//!
+//! "Clockwise from the token" = starting at the first ring entry whose token is >= the query
+//! token, wrapping to the lowest token after the highest. Deliberately boring: vectors and
+//! linear scans, no binary search, no precomputation, no shared code with the driver.
+//!
+//! Conventions the statement leaves open (reported as assumptions by the checks):
+//! * a node without a rack belongs to one shared "no rack" rack of its datacenter, both when
+//!   racks are counted and when the walk asks whether a rack is new;
+//! * a node without a datacenter belongs to no datacenter (NTS never selects it);
+//! * rings in which two different nodes own the same token have no defined clockwise order
+//!   between the two owners: `Ring::duplicate_tokens*` let callers exclude them.
+
+use std::collections::BTreeSet;
+
+#[derive(Clone, Debug, PartialEq, Eq)]
+pub struct RNode {
+    pub dc: Option<String>,
+    pub rack: Option<String>,
+}
+
+/// A token ring: `nodes[i]` is node i; `entries` = (token, node index), ascending by token
+/// (stable with respect to the order given to `Ring::new`).
+#[derive(Clone, Debug)]
+pub struct Ring {
+    pub nodes: Vec<RNode>,
+    pub entries: Vec<(i64, usize)>,
+}
+
+#[derive(Clone, Debug, PartialEq, Eq)]
+pub enum Strat {
+    Simple(usize),
+    /// (datacenter name, replication factor) entries; names need not exist in the ring.
+    Nts(Vec<(String, usize)>),
+    /// LocalStrategy: one replica, the token's owner.
+    Local,
+    /// A strategy the driver does not know; documented driver behaviour: as SimpleStrategy RF 1.
+    Other,
+}
+
+fn distinct(seq: impl IntoIterator<Item = usize>) -> Vec<usize> {
+    let mut out: Vec<usize> = Vec::new();
+    for x in seq {
+        if !out.contains(&x) {
+            out.push(x);
+        }
+    }
+    out
+}
+
+impl Ring {
+    pub fn new(nodes: Vec<RNode>, mut entries: Vec<(i64, usize)>) -> Ring {
+        entries.sort_by_key(|e| e.0); // stable
+        Ring { nodes, entries }
+    }
+
+    /// Nodes owning at least one token, in order of first appearance from the lowest token.
+    pub fn token_owners(&self) -> Vec<usize> {
+        distinct(self.entries.iter().map(|e| e.1))
+    }
+
+    /// Datacenter names present among token owners, in order of first appearance from the lowest token.
+    pub fn datacenters(&self) -> Vec<String> {
+        let mut out: Vec<String> = Vec::new();
+        for (_, n) in &self.entries {
+            if let Some(dc) = &self.nodes[*n].dc {
+                if !out.contains(dc) {
+                    out.push(dc.clone());
+                }
+            }
+        }
+        out
+    }
+
+    /// True if some token value is owned by two different nodes.
+    pub fn duplicate_tokens(&self) -> bool {
+        self.entries.windows(2).any(|w| w[0].0 == w[1].0 && w[0].1 != w[1].1)
+    }
+
+    /// True if some token value is owned by two different nodes of the same datacenter
+    /// (or by two nodes of which one has no datacenter - irrelevant to NTS, so not counted).
+    pub fn duplicate_tokens_within_a_dc(&self) -> bool {
+        for i in 0..self.entries.len() {
+            for j in i + 1..self.entries.len() {
+                let (a, b) = (self.entries[i], self.entries[j]);
+                if a.0 == b.0 && a.1 != b.1 {
+                    let (da, db) = (&self.nodes[a.1].dc, &self.nodes[b.1].dc);
+                    if da.is_some() && da == db {
+                        return true;
+                    }
+                }
+            }
+        }
+        false
+    }
+
+    /// Ring entries (as node indices, with repeats) clockwise from `token`: starts at the first
+    /// entry whose token is >= `token`, wraps around once, visits every entry exactly once.
+    pub fn walk(&self, token: i64) -> Vec<usize> {
+        let n = self.entries.len();
+        let mut start = 0; // wrap: nothing >= token -> lowest token
+        for (i, e) in self.entries.iter().enumerate() {
+            if e.0 >= token {
+                start = i;
+                break;
+            }
+        }
+        (0..n).map(|k| self.entries[(start + k) % n].1).collect()
+    }
+
+    /// Distinct nodes clockwise from `token`.
+    pub fn walk_nodes(&self, token: i64) -> Vec<usize> {
+        distinct(self.walk(token))
+    }
+
+    /// SimpleStrategy: the first RF distinct nodes clockwise from the token.
+    pub fn simple(&self, token: i64, rf: usize) -> Vec<usize> {
+        let mut w = self.walk_nodes(token);
+        w.truncate(rf);
+        w
+    }
+
+    /// Distinct nodes of datacenter `dc` clockwise from `token` ("walking that datacenter's nodes clockwise").
+    pub fn dc_walk_nodes(&self, token: i64, dc: &str) -> Vec<usize> {
+        self.walk_nodes(token).into_iter().filter(|n| self.nodes[*n].dc.as_deref() == Some(dc)).collect()
+    }
+
+    /// Number of distinct racks among the token-owning nodes of `dc` ("no rack" counts as one rack).
+    pub fn rack_count(&self, dc: &str) -> usize {
+        let racks: BTreeSet<Option<&str>> = self
+            .token_owners()
+            .into_iter()
+            .filter(|n| self.nodes[*n].dc.as_deref() == Some(dc))
+            .map(|n| self.nodes[n].rack.as_deref())
+            .collect();
+        racks.len()
+    }
+
+    /// NetworkTopologyStrategy inside one datacenter, exactly as the statement words it.
+    pub fn nts_dc(&self, token: i64, dc: &str, rf: usize) -> Vec<usize> {
+        let walk = self.dc_walk_nodes(token, dc);
+        let want = rf.min(walk.len());
+        let mut repeats_allowed = rf.saturating_sub(self.rack_count(dc));
+        let mut seen_racks: Vec<Option<&str>> = Vec::new();
+        let mut out = Vec::new();
+        for n in walk {
+            if out.len() == want {
+                break;
+            }
+            let rack = self.nodes[n].rack.as_deref();
+            if !seen_racks.contains(&rack) {
+                seen_racks.push(rack);
+                out.push(n);
+            } else if repeats_allowed > 0 {
+                repeats_allowed -= 1;
+                out.push(n);
+            }
+        }
+        out
+    }
+
+    /// The replica *set* (sorted node indices) of `token` under `strat`.
+    pub fn replica_set(&self, token: i64, strat: &Strat) -> Vec<usize> {
+        let mut v = self.replicas_ring_order(token, strat);
+        v.sort_unstable();
+        v
+    }
+
+    /// The replicas of `token` under `strat`, listed in ring order (order of first appearance
+    /// when walking the whole ring clockwise from the token).
+    pub fn replicas_ring_order(&self, token: i64, strat: &Strat) -> Vec<usize> {
+        match strat {
+            Strat::Simple(rf) => self.simple(token, *rf),
+            Strat::Local | Strat::Other => self.simple(token, 1),
+            Strat::Nts(entries) => {
+                let mut members: Vec<usize> = Vec::new();
+                let mut seen_dcs: Vec<&str> = Vec::new();
+                for (dc, rf) in entries {
+                    if seen_dcs.contains(&dc.as_str()) {
+                        continue; // a map has one entry per name; first wins if a caller repeats one
+                    }
+                    seen_dcs.push(dc);
+                    members.extend(self.nts_dc(token, dc, *rf));
+                }
+                self.walk_nodes(token).into_iter().filter(|n| members.contains(n)).collect()
+            }
+        }
+    }
+
+    /// "Restricting to a datacenter equals filtering the unrestricted answer" (ring order kept).
+    pub fn replicas_ring_order_in_dc(&self, token: i64, strat: &Strat, dc: &str) -> Vec<usize> {
+        self.replicas_ring_order(token, strat).into_iter().filter(|n| self.nodes[*n].dc.as_deref() == Some(dc)).collect()
+    }
+
+    /// Query tokens that cover the ring: every ring token, a token inside every open interval
+    /// between neighbours (token+1 where that is still below the next one), a token below the
+    /// lowest and above the highest ring token, and i64::MAX. With `dense` also the midpoint of
+    /// every interval, 0 and i64::MIN+1.
+    /// (i64::MIN is not a token value; the driver folds it onto i64::MAX - callers add it.)
+    pub fn query_tokens(&self, dense: bool) -> Vec<i64> {
+        let mut s: BTreeSet<i64> = BTreeSet::new();
+        let toks: Vec<i64> = distinct_sorted(self.entries.iter().map(|e| e.0));
+        for (i, t) in toks.iter().enumerate() {
+            s.insert(*t);
+            if let Some(next) = toks.get(i + 1) {
+                if *t < i64::MAX && t + 1 < *next {
+                    s.insert(t + 1);
+                    let mid = ((*t as i128 + *next as i128) / 2) as i64;
+                    if dense && mid > *t && mid < *next {
+                        s.insert(mid);
+                    }
+                }
+            }
+        }
+        if let (Some(lo), Some(hi)) = (toks.first(), toks.last()) {
+            if *lo > i64::MIN + 1 {
+                s.insert(lo - 1);
+            }
+            if *hi < i64::MAX {
+                s.insert(hi + 1);
+            }
+        }
+        if dense {
+            s.insert(0);
+            s.insert(i64::MIN + 1);
+        }
+        s.insert(i64::MAX);
+        s.into_iter().collect()
+    }
+}
+
+fn distinct_sorted(it: impl Iterator<Item = i64>) -> Vec<i64> {
+    let s: BTreeSet<i64> = it.collect();
+    s.into_iter().collect()
+}
+
+/// The 7-node, 2-datacenter ring pinned in the driver's own unit tests
+/// (scylla/src/routing/locator/test.rs), with node indices A=0 .. G=6.
+pub fn pinned_seven_node_ring() -> Ring {
+    let n = |dc: &str, rack: &str| RNode { dc: Some(dc.into()), rack: Some(rack.into()) };
+    let nodes = vec![n("eu", "r1"), n("eu", "r1"), n("eu", "r1"), n("us", "r1"), n("us", "r1"), n("us", "r2"), n("eu", "r2")];
+    let owners: [(i64, usize); 17] = [
+        (50, 0),
+        (100, 1),
+        (150, 4),
+        (200, 5),
+        (250, 0),
+        (300, 2),
+        (350, 3),
+        (400, 0),
+        (450, 5),
+        (500, 6),
+        (550, 3),
+        (600, 1),
+        (650, 2),
+        (700, 2),
+        (750, 4),
+        (800, 6),
+        (900, 1),
+    ];
+    Ring::new(nodes, owners.to_vec())
+}
+
+/// Known answers copied from the assertions of the driver's unit tests (replication_info.rs,
+/// precomputed_replicas.rs, locator/mod.rs `test_replicas_ordered`, locator/test.rs). Returns the
+/// list of mismatches (empty = the reference agrees with every pinned expectation).
+pub fn self_test() -> Vec<String> {
+    const A: usize = 0;
+    const B: usize = 1;
+    const C: usize = 2;
+    const D: usize = 3;
+    const E: usize = 4;
+    const F: usize = 5;
+    const G: usize = 6;
+    let ring = pinned_seven_node_ring();
+    let mut bad = Vec::new();
+    let mut expect = |what: String, got: Vec<usize>, want: Vec<usize>| {
+        if got != want {
+            bad.push(format!("{what}: reference says {got:?}, pinned expectation {want:?}"));
+        }
+    };
+    // test_simple_strategy
+    expect("simple(160,0)".into(), ring.simple(160, 0), vec![]);
+    expect("simple(160,2)".into(), ring.simple(160, 2), vec![F, A]);
+    let full200 = [F, A, C, D, G, B, E];
+    for rf in 1..=7 {
+        expect(format!("simple(200,{rf})"), ring.simple(200, rf), full200[..rf].to_vec());
+    }
+    let full701 = [E, G, B, A, F, C, D];
+    for rf in 1..=8usize {
+        expect(format!("simple(701,{rf})"), ring.simple(701, rf), full701[..rf.min(7)].to_vec());
+    }
+    // test_network_topology_strategy
+    let eu: [&[usize]; 6] = [&[], &[A], &[A, G], &[A, C, G], &[A, C, G, B], &[A, C, G, B]];
+    for (rf, want) in eu.iter().enumerate() {
+        expect(format!("nts(160,eu,{rf})"), ring.nts_dc(160, "eu", rf), want.to_vec());
+    }
+    let us: [&[usize]; 5] = [&[], &[F], &[F, D], &[F, D, E], &[F, D, E]];
+    for (rf, want) in us.iter().enumerate() {
+        expect(format!("nts(160,us,{rf})"), ring.nts_dc(160, "us", rf), want.to_vec());
+    }
+    // test_replicas_ordered
+    let nts = |k: usize| Strat::Nts(vec![("eu".into(), k), ("us".into(), k)]);
+    expect("ordered(160,nts3)".into(), ring.replicas_ring_order(160, &nts(3)), vec![F, A, C, D, G, E]);
+    expect("ordered(160,nts2)".into(), ring.replicas_ring_order(160, &nts(2)), vec![F, A, D, G]);
+    expect("ordered(160,ss2)".into(), ring.replicas_ring_order(160, &Strat::Simple(2)), vec![F, A]);
+    expect("ordered(160,nts3,eu)".into(), ring.replicas_ring_order_in_dc(160, &nts(3), "eu"), vec![A, C, G]);
+    expect("ordered(160,nts3,us)".into(), ring.replicas_ring_order_in_dc(160, &nts(3), "us"), vec![F, D, E]);
+    expect("ordered(160,ss2,eu)".into(), ring.replicas_ring_order_in_dc(160, &Strat::Simple(2), "eu"), vec![A]);
+    // locator/test.rs: sets
+    let set = |mut v: Vec<usize>| {
+        v.sort_unstable();
+        v
+    };
+    expect("set(450,ss3)".into(), ring.replica_set(450, &Strat::Simple(3)), set(vec![F, G, D]));
+    expect("set(450,ss4)".into(), ring.replica_set(450, &Strat::Simple(4)), set(vec![F, G, D, B]));
+    expect("set(201,ss4)".into(), ring.replica_set(201, &Strat::Simple(4)), set(vec![A, C, D, F]));
+    expect("set(50,ss1,us)".into(), ring.replicas_ring_order_in_dc(50, &Strat::Simple(1), "us"), vec![]);
+    expect("set(50,ss3,us)".into(), ring.replicas_ring_order_in_dc(50, &Strat::Simple(3), "us"), vec![E]);
+    expect("set(50,ss3,eu)".into(), ring.replicas_ring_order_in_dc(50, &Strat::Simple(3), "eu"), vec![A, B]);
+    // test_network_topology_strategy_replicas
+    let nts2 = |a: &str, x: usize, b: &str, y: usize| Strat::Nts(vec![(a.into(), x), (b.into(), y)]);
+    expect("set(75,nts eu1 us1,eu)".into(), ring.replicas_ring_order_in_dc(75, &nts2("eu", 1, "us", 1), "eu"), vec![B]);
+    expect("set(75,nts eu1 us1,us)".into(), ring.replicas_ring_order_in_dc(75, &nts2("eu", 1, "us", 1), "us"), vec![E]);
+    expect("set(75,nts eu1 us1)".into(), ring.replica_set(75, &nts2("eu", 1, "us", 1)), set(vec![B, E]));
+    expect("set(75,nts eu2 us1)".into(), ring.replica_set(75, &nts2("eu", 2, "us", 1)), set(vec![B, E, G]));
+    expect("set(75,nts unknown2 us1)".into(), ring.replica_set(75, &nts2("unknown", 2, "us", 1)), set(vec![E]));
+    expect("set(800,nts eu1 us1)".into(), ring.replica_set(800, &nts2("eu", 1, "us", 1)), set(vec![G, E]));
+    bad
+}
+
+#[cfg(test)]
+mod tests {
+    #[test]
+    fn pinned() {
+        assert_eq!(super::self_test(), Vec::<String>::new());
+    }
+}
